@@ -402,8 +402,22 @@ class JsonHistoryFlusher(threading.Thread):
         try:
             with open(self.filename, newline="\n", encoding="utf-8") as f:
                 hist = xlj.LazyJSON(f).load()
-        except (JSONDecodeError, ValueError, OSError):
-            # File is corrupted or unreadable - start with empty history
+        except FileNotFoundError:
+            hist = None
+        except OSError as err:
+            # The file could not be *read* right now (EMFILE, EACCES, EIO...).
+            # What it holds is still good: do not replace it with a file that
+            # only contains the new commands.
+            print(
+                f"history: failed to read {self.filename!r}: {err}; "
+                "not flushing to keep the saved history intact",
+                file=sys.stderr,
+            )
+            return
+        except (JSONDecodeError, ValueError):
+            hist = None
+        if hist is None:
+            # File is missing or corrupted - start with empty history
             hist = {"cmds": [], "sessionid": "", "ts": [time.time(), 0], "locked": True}
         load_hist_len = len(hist["cmds"])
         hist["cmds"].extend(cmds)
